@@ -525,11 +525,14 @@ func (l *PartitionLog) Read(ctx context.Context, offset int64, maxBytes int32) (
 		// Hold l.mu across both fallbacks so an in-flight flush cannot move
 		// batches from the buffer into flushingBatches (or commit a segment)
 		// between the two checks.
-		body := l.buffer.RecordsFrom(offset, maxBytes)
-		fromFlushWindow := false
+		// The flush window holds the older batches (they were drained before
+		// anything now in the buffer was appended), so consult it first:
+		// otherwise a read at an offset still in flight would be answered
+		// with the newer buffered batches and silently skip it.
+		body := recordsFromBatches(l.flushingBatches, offset, maxBytes)
+		fromFlushWindow := len(body) > 0
 		if len(body) == 0 {
-			body = recordsFromBatches(l.flushingBatches, offset, maxBytes)
-			fromFlushWindow = len(body) > 0
+			body = l.buffer.RecordsFrom(offset, maxBytes)
 		}
 		l.mu.Unlock()
 		if len(body) > 0 {
